@@ -21,8 +21,8 @@ P = {
  'C11': ('round-trip theorem over all (p,s) and digit strings (Lean) + differential correspondence', 'DECIMAL text is canonical for every precision, scale and value.', ''),
  'C12': ('round-trip theorems per temporal encoding (Lean) + differential correspondence', 'Every representable DATE/TIME/DATETIME value in both encodings decodes to canonical text; civil-date arithmetic of TIMESTAMP proved.', 'partial facet: which UTC offset applies (tzdata) is a parameter supplied by the time package at run time'),
  'C13': ('round-trip theorems (Lean) + differential correspondence', 'String/blob payloads verbatim for every declared and actual length; NULL / empty / absent distinguishable.', ''),
- 'C14': ('structural induction over documents (Lean) + differential correspondence', 'Binary JSON decodes to text denoting the stored document.', 'float E-format text is a parameter'),
- 'C15': ('round-trip theorem for table maps + cache invariants (Lean) + differential correspondence', 'Table maps decode exactly; rows attributed via the latest map for their id, also at the byte level under re-definition of an id (C15_bytes_redefinition); mapper / column-count mismatch rejected (C15_bytes_mapper_mismatch).', ''),
+ 'C14': ('structural induction over documents (Lean) + differential correspondence', 'Binary JSON decodes to text denoting the stored document; JSON columns inside the byte-level end-to-end theorems (C14_bytes_end_to_end_partial: documents without DOUBLE scalars).', 'float E-format text is a parameter'),
+ 'C15': ('round-trip theorem for table maps + cache invariants (Lean) + differential correspondence', 'Table maps decode exactly; rows attributed via the latest map for their id, also at the byte level under re-definition of an id (C15_bytes_redefinition); mapper / column-count mismatch rejected (C15_bytes_mapper_mismatch); an id announced for another table is looked up again (C15c, finding F13 fixed).', ''),
  'C16': ('round-trip and checksum-invariance theorems (Lean) + differential correspondence', 'Header fields and control event bodies decode exactly, with and without trailing checksum; the algorithm is re-read per file: fidelity against a master whose files alternate their checksum setting (C16_bytes_fidelity_mixed_checksums).', ''),
  'C17': ('iff-characterisation of the gate (Lean) + differential correspondence and injection', 'IsValid accepts exactly the self-consistent buffers; accessors total on them; invalid packets injected at any index of the served byte stream stop it with an error, no crash, no partial transaction, position at the last accepted boundary, and a clean attempt from there delivers the rest (C17_bytes_injected_invalid).', ''),
  'C18': ('set-semantics refinement (Lean) + exhaustive small-window correspondence', 'Contains/ContainsGTID/Equal/AddGTID agree with sets of (uuid, gno) pairs; AddGTID preserves canonical form.', ''),
